@@ -43,7 +43,7 @@ def build_props(PROPS):
         trusted_base=TB_COMMON, technique=TECH)
     PROPS['C05'] = dict(
         level='proof', quick=ALL(['is_ipv4', 'is_ipv6', 'is_ipaddr'] + E_LIT), thorough=ALL(['lemma_ipv6', 'is_ipv6_anylen']),
-        level_text='is_ipv4 (loop contract, every length) is proved against the IPv4 automaton: YES => accepted by the automaton; conversely dotted quads with non-zero first octet => YES. is_ipv6: its loop runs at most 17 times whatever the input length; it is fully unwound (18 iterations, unwinding assertion discharged) and shown against the RFC 4291 automaton (YES => accepted; RFC 5321 shapes => YES; dotted-quad tail handed to is_ipv4 from the start of its group). The quick tier runs this on inputs of at most 45 bytes (job is_ipv6, labelled bounded, not counted as proved); the thorough tier runs the same contract on inputs of every length (job is_ipv6_anylen, 26 min / 18 GB), which is a complete proof. The e-mail functions are proved to accept a literal only as "[" addr "]" with nothing after, v4 by is_ipv4, v6 only after the tag "IPv6:" (or untagged when the first byte is a digit), flags by family.',
+        level_text='is_ipv4 (loop contract, every length) is proved against the IPv4 automaton: YES => accepted by the automaton; conversely dotted quads with non-zero first octet => YES. is_ipv6: its loop runs at most 17 times whatever the input length; it is fully unwound (18 iterations, unwinding assertion discharged) and shown against the RFC 4291 automaton (YES => accepted; RFC 5321 shapes => YES; dotted-quad tail handed to is_ipv4 from the start of its group). The quick tier runs this on inputs of at most 45 bytes (job is_ipv6, labelled bounded, not counted as proved); the thorough tier runs the same contract on inputs of every length (job is_ipv6_anylen, 46 min / 18 GB), which is a complete proof. The e-mail functions are proved to accept a literal only as "[" addr "]" with nothing after, v4 by is_ipv4, v6 only after the tag "IPv6:" (or untagged when the first byte is a digit), flags by family.',
         level_note='BOUNDED PART (quick tier only): job is_ipv6 covers address texts of at most 45 bytes (an RFC 4291 address without superfluous leading zeros in a dotted-quad tail has at most 45); the thorough tier removes the bound (is_ipv6_anylen). strspn models A5, strchr/strrchr A3, tag comparison oracle A6; precondition of is_ipv4/is_ipv6: the closing bracket follows (true at every call site). Reject direction for IPv6: the converse (RFC 5321 shapes => YES) is stated for inputs the scan reads to the end, and an early NO is an obligation too: it must come from is_ipv4 refusing the dotted-quad tail or from unread bytes that are fatal for the automaton (NUL, a dead step within two bytes, a dot where no dotted quad may start, an 8th colon, a run of five hex digits); the last two rest on the counting facts proved in job lemma_ipv6 (at most 7 colons, five hex digits are fatal from every state).',
         trusted_base=TB_COMMON, technique=TECH)
     PROPS['C07'] = dict(
